@@ -48,8 +48,8 @@ CLAIMED = {
   "ref": "DESIGN.md 5-C02"},
 
  "C06": {
-  "text": "Gate-by-precondition over the real text of BlockFiltersProcess::execute and FilterProtocol::update_min_filtered_block_number: the filtered height advances and matched blocks are recorded only for a batch that starts exactly at min_filtered+1 and whose accepted prefix hashes, chained (H_i = filter_hash(H_{i-1}, f_i)) from the authentic hash of block start-1, to the authentic hash of block start+i for every i - where 'authentic' is produced only by the finalized check point / cached hashes / quorum vector getters, and the index arithmetic that attributes each expected hash to its block is proved (all four provenance branches). BlockFilterHashesProcess / BlockFilterCheckPointsProcess and LatestBlockFilterHashes / CheckPoints are proved total. The quorum search of Peers::get_latest_block_filter_hashes is under contract too (unit quorum): a non-empty answer is agreed on, position by position, by at least ceil(max_outbound_peers / 2) of the selected proven peers.",
-  "note": "Partial: block_hashes of the message (which block is downloaded for a matching filter) are NOT verified - named in evidence (known finding S6); the selection of the proven peers' vectors and the iterator pipelines of the quorum search are assumed helpers. Found and fixed while proving: S1d, S1i, S1j, S1k.",
+  "text": "Gate-by-precondition over the real text of BlockFiltersProcess::execute and FilterProtocol::update_min_filtered_block_number: the filtered height advances and matched blocks are recorded only for a batch that starts exactly at min_filtered+1 and whose accepted prefix hashes, chained (H_i = filter_hash(H_{i-1}, f_i)) from the authentic hash of block start-1, to the authentic hash of block start+i for every i - where 'authentic' is produced only by the finalized check points, the quorum vector, and - below the finalized check point - the cached hashes of a COMPLETE interval whose last entry was compared with the finalized next check point (BlockFilterHashesProcess::execute is proved to keep that cache invariant at its only update; that the entries before the last one are agreed values is an explicit obligation that nothing discharges: known finding S15), and the index arithmetic that attributes each expected hash to its block is proved (all four provenance branches). BlockFilterHashesProcess / BlockFilterCheckPointsProcess and LatestBlockFilterHashes / CheckPoints are proved total. The quorum search of Peers::get_latest_block_filter_hashes is under contract too (unit quorum): a non-empty answer is agreed on, position by position, by at least ceil(max_outbound_peers / 2) of the selected proven peers.",
+  "note": "Partial: block_hashes of the message (which block is downloaded for a matching filter) are NOT verified - named in evidence (known finding S6); the selection of the proven peers' vectors and the iterator pipelines of the quorum search are assumed helpers. Found and fixed while proving: S1d, S1i, S1j, S1k, S13 (c3226dc), S14 (a643133). Known findings: S6, S15.",
   "ref": "DESIGN.md 5-C06"},
  "C07": {
   "text": "Partial: contract on the real text of the agreement search and the two storage writes of LightClientProtocol::finalize_check_points (the block after the cleaning step, lifted mechanically) and on Peers::required_peers_count, Storage::update_check_points, Storage::update_max_check_point_index: check points are written only with the evidence that at least ceil(max_outbound_peers / 2) of the peers that entered the search report the same value for every position from the last final check point up to the written one (position by position, proved by a loop invariant over the real branch structure: count_max >= required, retain the agreeing peers, stop at the first position without a quorum); exactly those values are written, at consecutive indices starting right after the last final one, and the final index moves forward by the number of values written.",
